@@ -23,7 +23,7 @@ def universes(tier, seed):
         # overlapping skip nodes x a motif-avoidant attractor: the shape behind D12, on every quick run
         out.append(("KxK-overlap-maa", [("u", ("k", a), ("k", b)) for a, b in
                                         (("depth_overlap", "maa3"), ("depth_overlap", "maa_16555679"), ("depth_15986426", "maa_16555679"))] +
-                    [("u", ("u", ("idx", 3, 8974833), ("k", "bistable")), ("k", "bistable"))]))
+                    [("u", ("u", ("idx", 3, 8974833), ("k", "bistable")), ("k", "bistable")), ("bnet", U.GATED_MAA_BNET)]))
         out.append((f"F3c[{seed % 64}/64]", [("idx", 3, i) for i in U.shard(U.F3_indices(True), seed, 64)]))
         out.append((f"MULTI3[{seed % 4}/4]", [("idx", 3, i) for i in U.shard(U.catalogue("multi"), seed, 4)]))
         out.append((f"MAA3[{seed % 2048}/2048]", [("idx", 3, i) for i in U.shard(U.catalogue("maa"), seed, 2048)]))
@@ -57,7 +57,8 @@ def plan(tier, seed):
         "bounds": {"partial expansion": "7 partial strategies x every size limit 1..|full diagram| (diagrams with more than 8 nodes: limits 1..6, half, full); plus every state reachable by "
                    "plain-alphabet histories of depth <= 2 (K, small diagrams; 1 or 0 for larger ones) / 1 (U2)",
                    "completion routes": "skip_remaining | skip_to_minimal on every subset of stubs (<=3 stubs; else each single stub "
-                   "and all) in id order then skip_remaining | expand_minimal_spaces(skip_ignored=True) then skip_remaining",
+                   "and all) in id order then skip_remaining | expand_minimal_spaces(skip_ignored=True) then skip_remaining | (K and the overlap x MAA unions) "
+                   "seeds of all expanded nodes, skip_to_minimal on one stub, its seeds queried at once, then skip_remaining",
                    "seed query order": "ascending, descending; all permutations when the completed diagram has <= 4 nodes"},
         "rule": "every (network, partial expansion, completion route, query order): every reference attractor is hit by a seed, "
                 "every seed lies in a reference attractor inside its node, and without motif-avoidant attractors every attractor "
@@ -67,10 +68,15 @@ def plan(tier, seed):
     }
 
 
-def routes_for(sd):
+def routes_for(sd, skipq=False):
     stubs = list(sd.stub_ids())
     yield ("skiprem",)
     yield ("minskip",)
+    if skipq:
+        # one stub skipped and searched while the other stubs still exist, then the rest skipped (wave-5 change C05-w5-1:
+        # a result recorded for a skip node must stay valid when more skip nodes appear later)
+        for i in stubs[:8]:
+            yield ("skipq", i)
     if len(stubs) <= 3:
         subsets = [c for k in range(1, len(stubs) + 1) for c in itertools.combinations(stubs, k)]
     else:
@@ -85,6 +91,11 @@ def complete(sd, route):
             sd.skip_to_minimal(i)
     elif route[0] == "minskip":
         sd.expand_minimal_spaces(skip_ignored=True)
+    elif route[0] == "skipq":
+        for i in list(sd.expanded_ids()):
+            sd.node_attractor_seeds(i, compute=True)
+        sd.skip_to_minimal(route[1])
+        sd.node_attractor_seeds(route[1], compute=True)
     sd.skip_remaining()
 
 
@@ -133,7 +144,7 @@ def run_case(net, prefix, route, order_idx):
     return judge(net, sd, order), has_skip
 
 
-def cases(net, hist_depth):
+def cases(net, hist_depth, skipq=False):
     nfull = len(net.sd[0])
     prefixes = []
     lims = list(range(1, nfull + 1)) if nfull <= 8 else sorted(set(list(range(1, 7)) + [nfull // 2, nfull]))
@@ -151,7 +162,7 @@ def cases(net, hist_depth):
         if k in seen:
             continue
         seen.add(k)
-        for route in routes_for(base):
+        for route in routes_for(base, skipq):
             probe = replay_hist(net, p, CONFIG)
             complete(probe, route)
             for oi in range(len(list(orders_for(probe)))):
@@ -166,7 +177,7 @@ def run_unit(unit):
         res["states"] += net.N
         try:
             with case_timeout(1800):
-                for p, route, oi in cases(net, hist_depth):
+                for p, route, oi in cases(net, hist_depth, skipq=(uname in ("K", "KxK-overlap-maa"))):
                     case = {"net": list(spec), "prefix": [list(x) for x in p], "route": list(route), "order": oi}
                     res["evals"] += 1
                     res["transitions"] += len(p) + 2
